@@ -1375,9 +1375,18 @@ func conv(i *interpreter, t_dst, t_src types.Type, x value) value {
 			// simulate the memory layout of a real
 			// compiled implementation.
 			//
-			// To at least preserve type-safety, we'll
-			// just return the zero value of the
-			// destination type.
+			// gobmc: the round trip *T -> unsafe.Pointer -> *T (sync/atomic.Pointer[T],
+			// sync.Map, atomic.Value) must give the same cell back: returning nil here
+			// silently loses whatever was stored behind such a pointer. A conversion to
+			// another pointer type than the original one is type punning, which the boxed
+			// model cannot represent; the cell then holds a value of another shape and a
+			// later use stops the path with an engine error (reported as inconclusive),
+			// never with a wrong answer taken for a result.
+			if _, ok := ut_dst.(*types.Pointer); ok {
+				if up, ok := x.(unsafe.Pointer); ok && up != nil {
+					return (*value)(up)
+				}
+			}
 			return zero(t_dst)
 		}
 
